@@ -399,16 +399,30 @@ func runCheck(o *checkOpts) int {
 			}
 			queries = append(queries, r)
 		}
+		coverPC := map[string]*Term{}
+		var coverOrder []string
 		for _, c := range rep.Covers {
-			if onlyRe != nil && !onlyRe.MatchString(c.Name) {
+			if _, ok := coverPC[c.Name]; !ok {
+				coverOrder = append(coverOrder, c.Name)
+				coverPC[c.Name] = False
+			}
+			coverPC[c.Name] = Or(coverPC[c.Name], c.PC)
+		}
+		for _, name := range coverOrder {
+			if onlyRe != nil && !onlyRe.MatchString(name) {
 				continue
 			}
-			r := &ObResult{Name: c.Name, Kind: "cover", Claimed: true, Records: 1}
-			r.query = &Query{Name: c.Name, Assumes: append(append([]*Term{}, ex.axioms...), dropQuantified(c.PC)), Cover: true}
+			pc := coverPC[name]
+			if pc == False {
+				engineErrs = append(engineErrs, "vacuity: "+name+": every path reaching this point has a syntactically contradictory path condition")
+				continue
+			}
+			r := &ObResult{Name: name, Kind: "cover", Claimed: true, Records: 1}
+			r.query = &Query{Name: name, Assumes: append(append([]*Term{}, ex.axioms...), dropQuantifiedOr(pc)), Cover: true}
 			queries = append(queries, r)
 			// consistency: the full path condition (with quantified definitional facts and all axioms) must not be refutable
-			r2 := &ObResult{Name: strings.Replace(c.Name, "#cover:", "#consistency:", 1), Kind: "consistency", Claimed: true, Records: 1}
-			r2.query = &Query{Name: r2.Name, Assumes: append(append([]*Term{}, ex.axioms...), c.PC), Cover: true}
+			r2 := &ObResult{Name: strings.Replace(name, "#cover:", "#consistency:", 1), Kind: "consistency", Claimed: true, Records: 1}
+			r2.query = &Query{Name: r2.Name, Assumes: append(append([]*Term{}, ex.axioms...), pc), Cover: true}
 			queries = append(queries, r2)
 		}
 	}
@@ -607,6 +621,17 @@ func dropQuantified(t *Term) *Term {
 		}
 	}
 	return And(keep...)
+}
+
+func dropQuantifiedOr(t *Term) *Term {
+	if t.Op == "or" {
+		var ds []*Term
+		for _, a := range t.Args {
+			ds = append(ds, dropQuantified(a))
+		}
+		return Or(ds...)
+	}
+	return dropQuantified(t)
 }
 
 func containsQuant(t *Term) bool {
